@@ -70,7 +70,7 @@ def make_case(rng):
                 follow.append("N%d,%d" % (c, rng.randint(0, 1)))
             if rng.random() < p_cancel:
                 follow.append("X%d" % c)
-            if model.is_finite(timeout) and rng.random() < p_block:
+            if model.is_finite(timeout) and rng.random() < p_block:   # short timeouts only: block must return
                 follow.append("B%d" % c)
                 est_ms += timeout
             for _ in range(rng.randint(0, 3)):
@@ -287,10 +287,20 @@ class Session(object):
 
 
 _tsan_frame = re.compile(r"#\d+ (\S+) (\S+?):\d+")
+_bt_frame = re.compile(r"libdbus-1\.so[.\d]*\((\w+)\+0x")
+_BT_SKIP = ("backtrace", "_dbus_print_backtrace", "_dbus_abort", "_dbus_real_assert", "_dbus_real_assert_not_reached",
+            "_dbus_trace_ref", "_dbus_warn_check_failed", "_dbus_warn_return_if_fail", "_dbus_warn")
+
+# Reports that are artefacts of the build configuration and say nothing about pending calls: the sanitizer builds
+# enable DBUS_ENABLE_EMBEDDED_TESTS, whose malloc fault-injection bookkeeping in dbus-memory.c is a plain static int
+# decremented by every dbus_malloc (it does not exist in a production build).
+TSAN_NOT_JUDGED = {"_dbus_decrement_fail_alloc_counter": "embedded-tests-fail-alloc-counter",
+                   "_dbus_get_fail_alloc_counter": "embedded-tests-fail-alloc-counter",
+                   "_dbus_set_fail_alloc_counter": "embedded-tests-fail-alloc-counter"}
 
 
 def sanitizer_reports(text):
-    """-> list of (class, site, excerpt) for every distinct report in a stderr excerpt"""
+    """-> list of (class, site, excerpt) for every report in a stderr excerpt; class None = counted, not judged"""
     out = []
     if not text:
         return out
@@ -300,22 +310,34 @@ def sanitizer_reports(text):
                 continue
             cls = hrun.classify_stderr(chunk)
             kind = cls[0] if cls else "tsan:unknown"
-            # first in-tree frame of every stack of the report (stacks are separated by blank lines)
+            # first in-tree frame of each access / lock stack (stacks are separated by blank lines); the stacks
+            # that only say where memory, mutexes or threads were created are not part of the identity
             sites = []
             for stack in re.split(r"\n\s*\n", chunk):
+                head = stack.strip().split("\n")[0]
+                if re.match(r"\s*(Location is|Mutex M\d+ \(|Thread T\d+ )", head):
+                    continue
                 for fm in _tsan_frame.finditer(stack):
                     fn, loc = fm.group(1), fm.group(2)
                     if "/dbus/dbus-" in loc and "harness" not in loc:
-                        if fn not in sites:
-                            sites.append(fn)
+                        sites.append(fn)
                         break
+            if sites and all(x in TSAN_NOT_JUDGED for x in sites):
+                out.append((None, TSAN_NOT_JUDGED[sites[0]], ""))
+                continue
+            sites = sorted(set(sites))
             out.append((kind, "/".join(sites[:3]) or "?", chunk[-3500:]))
         rest = re.sub(r"(?s)={18}.*?={18}", "", text)
     else:
         rest = text
     cls = hrun.classify_stderr(rest)
     if cls and not cls[0].startswith("tsan"):
-        out.append((cls[0], cls[1], rest[-3500:]))
+        site = cls[1]
+        if site == "?":
+            named = [f for f in _bt_frame.findall(rest) if f not in _BT_SKIP]
+            if named:
+                site = "/".join(named[:2])
+        out.append((cls[0], site, rest[-3500:]))
     return out
 
 
@@ -325,7 +347,11 @@ def judge_case(part, flavor, case, res, status, plog, err, final):
     """-> True when the case must be re-run alone before it can be judged (watchdog / incomplete)"""
     wit = {"flavor": flavor, "case": case}
     rerun = False
-    for kind, site, text in sanitizer_reports(err):
+    reports = sanitizer_reports(err)
+    for kind, site, text in reports:
+        if kind is None:
+            part.count("tsan-report-not-judged:" + site)
+            continue
         part.count("sanitizer-report:" + kind)
         part.violation("%s:%s:%s" % (PROP, kind, site), "sanitizer / assertion report in the %s harness" % flavor,
                        dict(wit, stderr=text))
@@ -335,7 +361,7 @@ def judge_case(part, flavor, case, res, status, plog, err, final):
         part.violation("%s:hang:harness-stuck:%s" % (PROP, flavor), "the harness did not finish the script within the watchdog, twice", dict(wit, stderr=err[-3000:]))
         return False
     if status == "died":
-        if not sanitizer_reports(err):
+        if not [x for x in reports if x[0]]:
             part.violation("%s:crash:rc%s:%s" % (PROP, res.get("rc") if res else "?", flavor), "the harness died", dict(wit, stderr=err[-3000:]))
         return False
     if res is None or "events" not in res:
@@ -401,11 +427,13 @@ def _worker(args):
                 part.sample({"script": case_line(case), "peer": case["peer"], "result": json.dumps(res)[:1200]})
         ses.stop()
         for kind, site, text in sanitizer_reports(ses.new_stderr()):
+            if kind is None:
+                part.count("tsan-report-not-judged:" + site)
+                continue
             part.violation("%s:%s:%s" % (PROP, kind, site), "sanitizer report at exit of the %s harness" % flavor, {"flavor": flavor, "stderr": text})
     finally:
         ses.close()
         shutil.rmtree(rundir, ignore_errors=True)
-    part.counters["distinct-completion-orders"] = 0
     part.signatures |= set(("order",) + o for o in part.extra_orders)
     del part.extra_orders
     return part
